@@ -127,6 +127,9 @@ func (proj *Project) loadIndex() error {
 		if l == nil {
 			return fmt.Errorf("invalid index: target without a label")
 		}
+		if !l.IsAbs() {
+			return fmt.Errorf("invalid index: label %v is not absolute", l)
+		}
 
 		info, err := proj.loadTargetInfo(l)
 		if err != nil {
